@@ -6,7 +6,7 @@
 From Coq Require Import List NArith ZArith Lia.
 From Coq.Strings Require Import Byte.
 Import ListNotations.
-From BWLexer Require Import Utf8 Unicode Lexer LexerProofs CaseProofs PrintedProofs WsProofs.
+From BWLexer Require Import Utf8 Unicode Lexer LexerProofs CaseProofs PrintedProofs WsProofs WsSim WsMain.
 From BWLexer.Gen Require Import LexTablesGen.
 
 (* ---------------------------------------------------------------- termination / channel closed *)
@@ -269,6 +269,37 @@ Theorem C16_shift_invariance : forall (U : uni) (d f : nat) (s : state) (l : lx)
   (map (fun t => (tk_kind t, tk_start t + d, tk_end t + d)) (fst (run U f s l)), snd (run U f s l)).
 Proof. exact run_shift. Qed.
 Print Assumptions C16_shift_invariance.
+
+(* (B) replacing the NON-EMPTY ASCII white space ws1 that follows a token by another non-empty run ws2: if in the
+   lexing of  xb ++ ws1 ++ bb  a non-final token t ends exactly where ws1 begins, then the lexing of  xb ++ ws2 ++ bb
+   consists of the same tokens up to and including t (same kinds, same spans, hence the same texts: xb is common), and
+   the tokens after t are those of the first lexing moved by |ws2| - |ws1|: same kinds, same lengths, same texts
+   (C16_whitespace_text).  [base] is the common tail, positioned as in  xb ++ bb. *)
+Theorem C16_whitespace_replace : forall (U : uni), ascii_ok U ->
+  forall (xb ws1 ws2 bb : list byte),
+    Forall (fun b => (9 <= bz b <= 13)%Z \/ bz b = 32%Z) ws1 -> Forall (fun b => (9 <= bz b <= 13)%Z \/ bz b = 32%Z) ws2 ->
+    ws1 <> [] -> ws2 <> [] ->
+  forall (pre : list token) (t : token) (post : list token),
+    fst (lex_with U (xb ++ ws1 ++ bb)) = pre ++ t :: post -> post <> [] -> tk_end t = length xb ->
+    exists base,
+      post = map (fun u => (tk_kind u, tk_start u + length ws1, tk_end u + length ws1)) base /\
+      Forall (fun u => length xb <= tk_start u) base /\
+      fst (lex_with U (xb ++ ws2 ++ bb)) =
+        pre ++ t :: map (fun u => (tk_kind u, tk_start u + length ws2, tk_end u + length ws2)) base.
+Proof. exact ws_replace_bytes. Qed.
+Print Assumptions C16_whitespace_replace.
+
+(* a token that starts behind the white space has the same text whatever the white space is *)
+Theorem C16_whitespace_text : forall (xb ws bb : list byte) (u : token), length xb <= tk_start u ->
+  tk_text (xb ++ ws ++ bb) (tk_kind u, tk_start u + length ws, tk_end u + length ws) = tk_text (xb ++ bb) u.
+Proof. exact shifted_text. Qed.
+Print Assumptions C16_whitespace_text.
+
+(* the hypothesis is satisfiable:  select<SP>?x;  ->  select<TAB><LF>?x;  *)
+Example C16_whitespace_replace_example :
+  kinds ([x73;x65;x6c;x65;x63;x74] ++ [x09;x0a] ++ [x3f;x78;x3b]) = [ItemQuery; ItemBinding; ItemSemicolon; ItemEOF] /\
+  exists pre t post, lex ([x73;x65;x6c;x65;x63;x74] ++ [x20] ++ [x3f;x78;x3b]) = pre ++ t :: post /\ post <> [] /\ tk_end t = 6.
+Proof. split; [vm_compute; reflexivity|]. exists [], (ItemQuery, 0, 6). eexists. split; [vm_compute; reflexivity|]. split; [discriminate|reflexivity]. Qed.
 
 (* REFUTED as stated in the property (insertion between ANY two adjacent tokens): a filter function name is only
    emitted by lexFilterFunction when '(' follows immediately; with white space in between it ends in an Error token.
